@@ -3,6 +3,9 @@
 Observation of the real compiler on generated (network, option) points, judged by the Lean outcome
 specification (Spec/Outcome.lean). An escaping exception is a violation with the network as replay;
 known crashes are keyed by <ExceptionType>@<module>.<function> of the innermost repository frame."""
+import os
+
+import c13_cli
 import c13_corpus
 import c13_gen
 import common
@@ -23,7 +26,7 @@ def refine_site(site, o):
 
 def main():
     ck = Check("C13", "other")
-    ck.lean_stage(["VelaVerif.Props.C13"])
+    ck.lean_stage(["VelaVerif.Props.C13", "VelaVerif.Props.C13Cli"])
     # repairs written but not yet in the tree under test (known_findings.txt `fixed: ... PENDING-n [was key=...]`): their
     # keys stay open exactly as long as the patch still applies forward to this tree (see pending.py)
     open_pending = pending.register(ck)
@@ -33,6 +36,11 @@ def main():
     # operators kept off the NPU of every kind a rewrite pass reads, --force-symmetric-int-weights cases (reject_gen.py)
     profiles += ["act_extremes", "act_extremes", "rejected"]
     own = None
+    cli_stats = None
+    if os.environ.get("VERIF_C13_ONLY") == "cli":
+        # development / mutation self-tests: the command-line stream alone (harness/c13_cli.py)
+        own = []
+        cli_stats = c13_cli.run(ck)
     if ck.replay_arg:
         # replays of the regression corpus / the targeted families are compiled by their own workers
         import json
@@ -42,11 +50,17 @@ def main():
         rp = json.load(open(ck.replay_arg))
         rp = rp.get("replay", rp)
         prof = str(rp.get("profile", ""))
+        if prof.startswith("c13cli:"):
+            own = []
+            cli_stats = c13_cli.run(ck, only=rp["vector"])
         if prof.startswith(("c13reg:", "c13x:")):
             pipeline.load_vela()
             own = [c13_corpus.compile_one(prof[7:])] if prof.startswith("c13reg:") else [c13_gen.compile_one((rp["seed"], rp["index"]))]
     outs = own if own is not None else pipe_common.run_corpus(ck, n, profiles=profiles, want={"more_opts": True}, corpus_first=False, sweep=True)
-    if not ck.replay_arg:
+    if not ck.replay_arg and own is None:
+        # the command-line layer: option vectors x a tiny network against the Lean model of main()'s validation
+        cli_stats = c13_cli.run(ck)
+    if not ck.replay_arg and own is None:
         # deterministic reproducers of every repaired crash first: a regression is a plain VIOLATION
         # ... then the targeted families (operator neighbourhoods the general profiles rarely produce, see c13_gen.py)
         outs = c13_corpus.run() + c13_gen.run(ck.seed, 3900 if ck.thorough else 390) + outs
@@ -94,13 +108,15 @@ def main():
         "explanation": "Every generated structurally valid model x option combination is compiled in-process through vela.main; the "
                        "ending (status, output written, error printed, escaping exception) is judged by the Lean predicate "
                        "Outcome.acceptable. The claim that no pass raises anything but VelaError is observed, not proved.",
-        "evaluations": len(outs),
-        "distinct_nontrivial": len(nontrivial),
+        "evaluations": len(outs) + (cli_stats or {}).get("cli_vectors", 0),
+        "distinct_nontrivial": len(nontrivial) + (cli_stats or {}).get("cli_distinct_requests", 0),
         "rule": "case = (generated network, CLI options); distinct by (profile, operator list, input shape); every case is non-trivial "
-                "(it runs the whole compiler)",
+                "(it runs the whole compiler); command-line stream: case = option vector, distinct by the model request line "
+                "(option values + environment facts), every case runs the real vela.main",
         "unacceptable_endings": bad,
         "regression_corpus": len(c13_corpus.ENTRIES),
         "pending_repairs_open_in_this_tree": sorted(open_pending),
+        "command_line_stream": cli_stats,
     }, assumptions=["generated models are structurally valid TFLite (built with the schema's own builder classes)",
                     "NumPy 2.5.3 / Python 3.12 as installed"])
 
